@@ -81,6 +81,13 @@ pub fn module(log: Log) -> RpcModule<Log> {
 		panic!("handler panics on purpose");
 	})
 	.unwrap();
+	// an async call that stays in flight for a while (other messages of the connection are handled meanwhile)
+	m.register_async_method("slow", |_, log, _| async move {
+		log.lock().push(json!({"h": "slow", "params": ["probe"]}));
+		tokio::time::sleep(Duration::from_millis(25)).await;
+		"slow-done"
+	})
+	.unwrap();
 	// result of exactly `n` bytes of string payload (C08): params [n, kind]
 	m.register_method("big", |p, log, _| -> Result<Value, ErrorObjectOwned> {
 		let (n, kind): (usize, String) = p.parse()?;
